@@ -90,6 +90,19 @@ CHECKS = {
             "by real serial/OpenMP CPU kernels and host-simulated OpenCL/CUDA launches. A zero-sized GPU launch (n = 0) may be "
             "rejected by a real driver: cannot be exhibited here.",
             "7/C16"),
+    "C13": ("Lean 4 proof: list-splice algebra of slice assignment (prefix ++ source ++ suffix), frame and length lemmas, dispatch "
+            "equivalence of update_from_xbuffer, view/element arithmetic; differential tie on EVERY (offset, length) of small "
+            "capacities for both buffer kinds and every primitive; byte-diff and follow-up-write aliasing oracle",
+            "Kernel-checked theorems over the model of the BufferNumpy/BufferByteArray primitives, for every capacity, offset, "
+            "length and source: C13_splice / C13_frame / C13_total (exactly the requested bytes at exactly the requested offsets, "
+            "everything else and the length unchanged, never refused inside capacity), C13_update_from_native, C13_copy_to_native, "
+            "C13_xbuffer_same (both dispatch branches of update_from_xbuffer give the same bytes), C13_self_overlap (old source "
+            "contents move even when ranges overlap), C13_copy_independent, C13_view_aliases / C13_view_sees_writes (element i of "
+            "a typed view IS bytes [off+i*w, off+(i+1)*w)), C13_update_from_nplike (elements in logical order, converted, dw bytes "
+            "each), C13_conv_same_width. The tie compares the whole buffer image after every primitive.",
+            "Partial: float astype is NumPy's (compared with NumPy by the oracle, not modelled); whether a Python object returned "
+            "by a primitive aliases the buffer is a runtime fact measured by follow-up writes in both directions.",
+            "7/C13"),
 }
 
 NOT_YET = {
